@@ -66,13 +66,14 @@ const (
 	PoolB3Relabel   // B3's signature bytes with the signer labels re-attributed (one label replaced by a non-signer, or rotated)
 	PoolB3Resplit   // B3's signature bytes split differently between the entries (ECDSA; otherwise like PoolB3Relabel)
 	PoolGenesisSigned // genesis hash, view 0, but carrying B0's (decodable, unrelated) signature: not the genesis certificate
+	PoolB3Other     // honest, block view 5 like PoolB3, but assembled by another collector: the LAST q members in reverse order (other signer set when n > q, other order for signer lists)
 	PoolSize
 )
 
 // poolValid is the ground truth for the prepared QCs; PoolBlockView the view of the certified block.
 var (
-	poolValid     = [PoolSize]bool{true, true, true, true, false, false, false, false, false, false, false, false, false, false}
-	PoolBlockView = [PoolSize]uint64{0, 1, 2, 5, 5, 2, 2, 3, 5, 0, 5, 5, 5, 0}
+	poolValid     = [PoolSize]bool{true, true, true, true, false, false, false, false, false, false, false, false, false, false, true}
+	PoolBlockView = [PoolSize]uint64{0, 1, 2, 5, 5, 2, 2, 3, 5, 0, 5, 5, 5, 0, 5}
 )
 
 // PoolValid reports the ground truth of pool QC i (a signer "repeated q times" is one honest signature when q == 1).
@@ -150,6 +151,16 @@ func GetWorld(scheme string, n int) *World {
 	w.Pool[PoolB3Relabel] = hotstuff.NewQuorumCert(relabelSig(w, w.Pool[PoolB3].Signature(), false), 5, w.Blocks[3].Hash())
 	w.Pool[PoolB3Resplit] = hotstuff.NewQuorumCert(relabelSig(w, w.Pool[PoolB3].Signature(), true), 5, w.Blocks[3].Hash())
 	w.Pool[PoolGenesisSigned] = hotstuff.NewQuorumCert(w.Pool[PoolB0].Signature(), 0, g.Hash())
+	w.Pool[PoolB3Other] = w.Pool[PoolB3]
+	if w.Q >= 2 {
+		var last []*kit.Member
+		for i := n - 1; i >= n-w.Q; i-- {
+			last = append(last, w.Members[i])
+		}
+		if sig, err := kit.CombineAny(w.Scheme, w.Members[0].Base, kit.SignEach(last, w.Blocks[3].ToBytes())); err == nil {
+			w.Pool[PoolB3Other] = hotstuff.NewQuorumCert(sig, 5, w.Blocks[3].Hash())
+		}
+	}
 	worlds[key] = w
 	return w
 }
